@@ -45,6 +45,8 @@ func (e *CExpr) String() string {
 		return "(" + e.Op + " " + e.Var + " " + e.VarT + " :: " + e.Args[0].String() + ")"
 	case "old":
 		return "old(" + e.Args[0].String() + ")"
+	case "entry":
+		return `\entry(` + e.Args[0].String() + ")"
 	case "cond":
 		return "(" + e.Args[0].String() + " ? " + e.Args[1].String() + " : " + e.Args[2].String() + ")"
 	}
@@ -599,6 +601,9 @@ func (p *cparser) postfix(e *CExpr) *CExpr {
 			p.expect(")")
 			if e.Name == "old" {
 				e = &CExpr{Op: "old", Args: args}
+			} else if e.Name == `\entry` {
+				// the value of an expression when the loop was entered (loop clauses only)
+				e = &CExpr{Op: "entry", Args: args}
 			} else {
 				e = &CExpr{Op: "call", Name: e.Name, Args: args}
 			}
